@@ -608,6 +608,7 @@ def scope_case(draw, fault_kind, exec_safe):
 # constructors: definite assignment of fields
 # ----------------------------------------------------------------------------------------------------------
 CT_HEADER = """def gi(k: Int) => print(k)
+def gi2(k: Int) -> Int => k + 1
 class P(def b: Int)
 """
 
@@ -658,7 +659,8 @@ class CG:
                     form = self.pick(["self.q.b := 1", "gi(self.q.b)", "self.q.b += 1"])
                 else:
                     form = self.pick(["gi(self.%s)", "print(self.%s)", "def loc := self.%s + 1", "self.z := self.%s",
-                                      "if self.%s > 0 then print(1)"]) % f
+                                      "if self.%s > 0 then print(1)", "self.%s := self.%s + p", "self.%s := gi2(self.%s)",
+                                      "self.%s += 1"]).replace("%s", f)
                 self.emit(ind, form)
                 self.fault_done = {"kind": "field_read_before_assignment", "field": f, "form": form, "depth": depth}
                 return assigned
